@@ -96,15 +96,32 @@ fn query(state: &ClusterState, strat: &Strategy, token: i64, dc: &str, nnodes: u
 }
 
 /// One record: topology + ring + strategy + precomputed flag -> all queries.
-fn record(rt: &tokio::runtime::Runtime, attr: &[(String, String)], ring: &[(usize, usize)], strat_v: &Value, pre: bool, dcs: &[&str], rng: &mut impl Rng) -> Value {
+fn record(rt: &tokio::runtime::Runtime, attr: &[(String, String)], ring: &[(usize, usize)], strat_v: &Value, mode: u8, dcs: &[&str], rng: &mut impl Rng) -> Value {
     let nring = ring.len();
     let strat = strategy_of(strat_v);
-    let ks = if pre {
-        vec![VKeyspace { name: "ks_pre".into(), strategy: strat.clone(), tablet_based: false, tables: vec!["t".into()] }]
-    } else {
-        vec![]
+    let mk_ks = |st: &Strategy| vec![VKeyspace { name: "ks_pre".into(), strategy: st.clone(), tablet_based: false, tables: vec!["t".into()] }];
+    // mode 0: nothing pre-computed; 1: this strategy pre-computed; 2: only a strategy with LARGER replication
+    // factors pre-computed; 3: this strategy pre-computed, and the state is the result of a metadata refresh
+    // from a state in which the first node sat in another rack
+    let bigger = match &strat {
+        Strategy::SimpleStrategy { replication_factor } => Strategy::SimpleStrategy { replication_factor: replication_factor + 2 },
+        Strategy::NetworkTopologyStrategy { datacenter_repfactors } => Strategy::NetworkTopologyStrategy {
+            datacenter_repfactors: datacenter_repfactors.iter().map(|(k, v)| (k.clone(), v + 1 + (k.len() % 2))).collect(),
+        },
+        other => other.clone(),
     };
-    let state = rt.block_on(build(peers_of(attr, ring, nring), ks));
+    let state = match mode {
+        0 => rt.block_on(build(peers_of(attr, ring, nring), vec![])),
+        1 => rt.block_on(build(peers_of(attr, ring, nring), mk_ks(&strat))),
+        2 => rt.block_on(build(peers_of(attr, ring, nring), mk_ks(&bigger))),
+        _ => {
+            let mut old = attr.to_vec();
+            old[0].1 = if old[0].1 == "r9" { "r8".to_string() } else { "r9".to_string() };
+            let s0 = rt.block_on(build(peers_of(&old, ring, nring), mk_ks(&strat)));
+            rt.block_on(scylla::verif::cluster::rebuild(&s0, peers_of(attr, ring, nring), mk_ks(&strat)))
+        }
+    };
+    let pre = mode == 1 || mode == 3;
     // query positions: ring entries sit at even positions 2p; odd positions are the gaps
     let mut queries = Vec::new();
     for q in 1..=(2 * nring + 1) {
@@ -127,7 +144,7 @@ fn record(rt: &tokio::runtime::Runtime, attr: &[(String, String)], ring: &[(usiz
     json!({
         "ring": ring.iter().map(|(p, n)| json!([2 * p, n])).collect::<Vec<_>>(),
         "attr": attr.iter().map(|(d, r)| json!([d, r])).collect::<Vec<_>>(),
-        "strat": strat_v, "pre": if pre {1} else {0}, "queries": queries
+        "strat": strat_v, "pre": mode, "queries": queries
     })
 }
 
@@ -191,9 +208,13 @@ pub fn cmd_run(args: &[String]) -> i32 {
             owners.shuffle(&mut rng);
             let ring: Vec<(usize, usize)> = owners.iter().enumerate().map(|(i, n)| (i + 1, *n)).collect();
             for s in strategies(attr.len(), full) {
-                for pre in [true, false] {
+                for mode in [1u8, 0, 2, 3] {
+                    // the two extra modes only where they can matter (keeps the judge's work bounded)
+                    if mode >= 2 && s["kind"] != "nts" && !(s["kind"] == "simple" && s["rf"] == 2) {
+                        continue;
+                    }
                     let mut r2 = rand::rngs::StdRng::seed_from_u64(rng.random());
-                    let r = std::panic::catch_unwind(std::panic::AssertUnwindSafe(|| record(&rt, &attr, &ring, &s, pre, &dcs, &mut r2)));
+                    let r = std::panic::catch_unwind(std::panic::AssertUnwindSafe(|| record(&rt, &attr, &ring, &s, mode, &dcs, &mut r2)));
                     emit(r, &mut out, &mut nq, &mut panics);
                     nrec += 1;
                 }
@@ -222,10 +243,10 @@ pub fn cmd_run(args: &[String]) -> i32 {
             0 => json!({"kind":"simple","rf": rng.random_range(0..=n + 2)}),
             _ => json!({"kind":"nts","rfs":[["dc1", rng.random_range(0..6)],["dc2", rng.random_range(0..6)],["dc3", rng.random_range(0..4)]]}),
         };
-        let pre = rng.random_bool(0.5);
+        let mode: u8 = rng.random_range(0..4);
         let mut r2 = rand::rngs::StdRng::seed_from_u64(rng.random());
         let r = std::panic::catch_unwind(std::panic::AssertUnwindSafe(|| {
-            let mut v = record(&rt, &attr, &ring, &strat, pre, &dcs, &mut r2);
+            let mut v = record(&rt, &attr, &ring, &strat, mode, &dcs, &mut r2);
             // keep the judge's work bounded: a sample of the queries
             let qs = v["queries"].as_array().unwrap().clone();
             let keep: Vec<Value> = qs.into_iter().enumerate().filter(|(i, _)| i % 7 == 0).map(|(_, q)| q).collect();
